@@ -1,21 +1,117 @@
+//! Deterministic simulation harness for piyoppi/chiritori (see /verif/DESIGN.md).
+
+mod c05;
+mod c19;
+mod c20;
 mod cli;
+mod common;
+mod doc;
+mod driver;
+mod reftime;
+mod rng;
+mod scen;
+mod selftest;
 mod world;
 
-use world::*;
+use std::path::PathBuf;
+
+fn arg<'a>(args: &'a [String], name: &str) -> Option<&'a str> {
+    args.iter().position(|a| a == name).and_then(|i| args.get(i + 1)).map(|s| s.as_str())
+}
+fn flag(args: &[String], name: &str) -> bool {
+    args.iter().any(|a| a == name)
+}
+
+fn env_seed() -> u64 {
+    match std::env::var("VERIF_SEED") {
+        Ok(s) if !s.trim().is_empty() => match s.trim().parse::<u64>() {
+            Ok(v) => v,
+            Err(_) => {
+                // any string is accepted: hash it
+                common::hash_str(s.trim())
+            }
+        },
+        _ => driver::DEFAULT_SEED,
+    }
+}
+
+fn verif_dir() -> PathBuf {
+    PathBuf::from(std::env::var("VERIF_DIR").unwrap_or_else(|_| "/verif".to_string()))
+}
 
 fn main() {
-    install_panic_hook();
-    let mut fs = Fs::new();
-    fs.insert("a.txt".into(), b"x\n<!-- <time-limited to=\"2024-01-01 00:00:00\"> -->\nfoo\n<!-- </time-limited> -->\ny\n".to_vec());
-    for sec in [1704067199i64, 1704067200] {
-        let ex = Exec {
-            argv: vec!["chiritori".into(), "--filename".into(), "a.txt".into()],
-            clock: ClockSpec { sec, nsec: 0, tick_ns: 0 },
-            io: IoPlan { seed: 7, short_read: true, short_write: true, eintr_read: true, eintr_write: true, max_chunk: 7, ..Default::default() },
-            ..Default::default()
-        };
-        let out = execute(&mut fs, &ex, cli::run);
-        println!("{:?} stdout={:?} stderr={:?}", out.status, String::from_utf8_lossy(&out.stdout), String::from_utf8_lossy(&out.stderr));
-        println!("{:?} {:?}", out.counters, out.clock);
-    }
+    world::install_panic_hook();
+    let args: Vec<String> = std::env::args().collect();
+    let cmd = args.get(1).map(|s| s.as_str()).unwrap_or("");
+    let code = match cmd {
+        "worker" => {
+            let a = driver::WorkerArgs {
+                prop: arg(&args, "--prop").expect("--prop").to_string(),
+                seed: arg(&args, "--seed").expect("--seed").parse().expect("seed"),
+                from: arg(&args, "--from").unwrap_or("0").parse().unwrap(),
+                to: arg(&args, "--to").expect("--to").parse().unwrap(),
+                stride: arg(&args, "--stride").unwrap_or("1").parse().unwrap(),
+                offset: arg(&args, "--offset").unwrap_or("0").parse().unwrap(),
+                out: PathBuf::from(arg(&args, "--out").expect("--out")),
+                dump_hashes: flag(&args, "--dump-hashes"),
+            };
+            driver::worker(&a);
+            0
+        }
+        "run" => {
+            let prop = arg(&args, "--prop").expect("--prop").to_string();
+            if !scen::PROPS.contains(&prop.as_str()) {
+                eprintln!("unknown property {}", prop);
+                std::process::exit(2);
+            }
+            let tier = arg(&args, "--tier").map(|s| s.to_string()).or_else(|| std::env::var("VERIF_TIER").ok()).unwrap_or_else(|| "quick".into());
+            let tier = if tier == "thorough" { "thorough".to_string() } else { "quick".to_string() };
+            let scenarios = arg(&args, "--scenarios").map(|s| s.parse().expect("--scenarios")).unwrap_or_else(|| driver::tier_scenarios(&prop, &tier));
+            let ncpu = std::thread::available_parallelism().map(|n| n.get() as u64).unwrap_or(4);
+            let workers = arg(&args, "--workers").map(|s| s.parse().expect("--workers")).unwrap_or(ncpu.min(16)).max(1);
+            let a = driver::RunArgs {
+                prop,
+                tier,
+                seed: arg(&args, "--seed").map(|s| s.parse().expect("--seed")).unwrap_or_else(env_seed),
+                scenarios,
+                workers,
+                verif_dir: verif_dir(),
+                write_evidence: !flag(&args, "--no-evidence"),
+                dump_hashes: false,
+            };
+            driver::check(&a)
+        }
+        "replay" => match args.get(2) {
+            Some(p) => driver::replay(&PathBuf::from(p)),
+            None => {
+                eprintln!("usage: sim replay <file>");
+                2
+            }
+        },
+        "gen" => {
+            let prop = arg(&args, "--prop").expect("--prop");
+            let seed = arg(&args, "--seed").map(|s| s.parse().unwrap()).unwrap_or_else(env_seed);
+            let index: u64 = arg(&args, "--index").unwrap_or("0").parse().unwrap();
+            let scn = scen::generate(prop, seed, index);
+            if flag(&args, "--source") {
+                println!("{}", scn.rendered_source());
+            } else {
+                println!("{}", serde_json::to_string_pretty(&scn).unwrap());
+            }
+            if flag(&args, "--run") {
+                let (v, st) = driver::run_once(&scn, true);
+                for l in &st.transcript {
+                    println!("{}", l);
+                }
+                println!("violation: {:?}", v);
+            }
+            0
+        }
+        "selftest" => selftest::main(&args[2..], &verif_dir(), env_seed()),
+        _ => {
+            eprintln!("usage: sim run|worker|replay|gen|selftest ...");
+            2
+        }
+    };
+    std::process::exit(code);
 }
